@@ -124,6 +124,17 @@ pub fn run(r: &mut Rec) {
             for f in 0..6 {
                 bits::logic_i(r, f);
             }
+            // in-place bit writes (two's complement rewriting of a negative magnitude can clear its top digit)
+            let bits_a = r.g.i[0].bits();
+            for (n, ix) in [0u64, 5, 63, 64, bits_a.saturating_sub(1), bits_a].into_iter().enumerate() {
+                let v = (n + k) % 2 == 0;
+                let ex = format!("\"sc\":{},\"v\":{}", sc_list(&[ix.sc()]), v);
+                r.clone_i(0, 2);
+                r.i_mut("set_bit", "method", &ex, 2, |d| d.set_bit(ix, v));
+                let ex = format!("\"sc\":{},\"v\":{}", sc_list(&[ix.sc()]), !v);
+                r.clone_i(0, 2);
+                r.i_mut("set_bit", "method", &ex, 2, |d| d.set_bit(ix, !v));
+            }
             r.ii("mul", "ref_ref", 0, 1, 2, |x, y| x * y);
             r.clone_i(0, 2);
             r.i_assign("mul", "assign_val", 2, 1, |d, s| *d *= s.clone());
